@@ -3,7 +3,9 @@ use crate::runner::Property;
 pub mod c01;
 pub mod c03;
 pub mod c05;
+pub mod c06;
 pub mod c09;
+pub mod c10;
 pub mod c11;
 pub mod c15;
 pub mod common;
@@ -13,7 +15,9 @@ pub fn by_id(id: &str) -> Option<Box<dyn Property>> {
         "C01" => Some(Box::new(c01::C01)),
         "C03" => Some(Box::new(c03::C03)),
         "C05" => Some(Box::new(c05::C05)),
+        "C06" => Some(Box::new(c06::C06)),
         "C09" => Some(Box::new(c09::C09)),
+        "C10" => Some(Box::new(c10::C10)),
         "C11" => Some(Box::new(c11::C11)),
         "C15" => Some(Box::new(c15::C15)),
         _ => None,
